@@ -360,7 +360,7 @@ def with_fixed(tok, mask):
     out = []
     for l in tok:
         out.append(l)
-        if l.startswith("init ") and mask:
+        if l.startswith("init "):
             out.append("fixed %d" % (mask | 127))     # bits 0..6: the committed C08 fixes, the mirror's baseline
     return out
 
